@@ -10,7 +10,7 @@ import numpy as np
 from hypothesis import strategies as st
 
 from vp import pbt
-from vp.pbt import SubCheck
+from vp.pbt import SubCheck, represent
 from vp.ref import surrogates as ref
 
 PROPERTY = "C15"
@@ -53,7 +53,8 @@ def _data(case):
 
 def _new(data):
     from pyunicorn.timeseries import Surrogates
-    return Surrogates(original_data=data.copy(), silence_level=3)
+    return Surrogates(original_data=represent(data.copy(), dtypes=False),
+                      silence_level=3)
 
 
 def _thr(op):
